@@ -144,3 +144,25 @@ pub fn shipped_bases() -> Vec<(String, String)> {
     let b: Vec<_> = bases(true).into_iter().skip(1).collect();
     b
 }
+
+/// VOCAB: every (service, carrier) pair and every production source as one line, to be added to a small
+/// fixed building, so that each word of the input vocabulary goes through every check at least once.
+pub fn vocab_letters() -> Vec<Letter> {
+    let mut al = vec![];
+    for srv in ["ACS", "CAL", "REF", "VEN", "ILU", "NEPB"] {
+        for car in ["ELECTRICIDAD", "GASNATURAL", "GASOLEO", "GLP", "CARBON", "BIOCARBURANTE", "BIOMASA", "BIOMASADENSIFICADA", "RED1", "RED2", "EAMBIENTE", "TERMOSOLAR"] {
+            al.push(Letter::one(u(Some(4), srv, car, &k(&[2, 1]))));
+        }
+    }
+    for car in ["GASNATURAL", "GASOLEO", "GLP", "CARBON", "BIOCARBURANTE", "BIOMASA", "BIOMASADENSIFICADA", "RED1", "RED2"] {
+        al.push(Letter::many(vec![p(Some(5), "EL_COGEN", &k(&[1, 2])), u(Some(5), "COGEN", car, &k(&[3, 3]))]));
+    }
+    for src in ["EL_INSITU", "TERMOSOLAR", "EAMBIENTE"] {
+        al.push(Letter::one(p(Some(6), src, &k(&[1, 4]))));
+    }
+    al
+}
+
+pub fn vocab_base() -> Vec<(String, String)> {
+    vec![("small building".to_string(), "0, CONSUMO, ILU, ELECTRICIDAD, 3, 1\n0, PRODUCCION, EL_INSITU, 1, 3\n1, CONSUMO, CAL, GASNATURAL, 2, 2\n".to_string()), ("empty".to_string(), String::new())]
+}
